@@ -182,7 +182,7 @@ def build_trie(repo, spec_dir, canary=False):
     OE, NE = 'old(self).graph.edges()', 'final(self).graph.edges()'
     frame = '%s.initial_state == %s.initial_state && %s.final_state_indices == %s.final_state_indices' % (N, O, N, O)
     inv = lambda s: 'edges_closed(%s.graph.edges(), %s.graph.nodes()) && %s.graph.nodes().contains(%s.initial_state) && edges_wf(%s.graph.edges())' % (s, s, s, s, s)
-    S, X = ['C01', 'C16'], ['C16']            # S: soundness view (labels may only be widened), X: exactness view (labels never change)
+    S, X = ['C01', 'C16'], ['C16', 'C05']            # S: soundness view (labels may only be widened), X: exactness view (labels never change)
     # find_next_state: R14 (continue).  Soundness: a reused edge covers the inserted label and every old edge keeps covering its old label.
     # Exactness (what "the trie accepts exactly the union" needs): an edge is reused only for the SAME label and no edge is relabelled.
     b.verified_fn('dfa.rs', 'find_next_state', within=D, props=['C07'], fname='Dfa::find_next_state', desugar_continue=True,
